@@ -22,7 +22,7 @@ func TestMain(m *testing.M) {
 		Property: "C01", Level: "exploration",
 		Rule: "rapid-generated operation histories (6..40 steps) over one trie on a drawn store stack (memory, layered memory, layered persistent, persistent): insert, insert of empty/nil value, insert of an over-size value, delete, typed get, version bump, reopen (fresh trie object and cache at the current root). " +
 			"Paths are even-length lower-case hex over a small byte alphabet; ~40% are truncations/extensions/siblings of paths already used, ~8% the empty path; a second mode draws fixed-length paths, a third paths of 16..48 hex characters made mostly of repeated \"00\" bytes (whole stretches repeat inside and between paths). Oracle: map[path]value, compared after every step by lookups of every live key and of absent neighbours, by a full Iterate, and by the step's own return value/error. " +
-			"Non-trivial = the history deletes a present key and (contains two live-at-some-time keys where one is a proper prefix of the other, or operates on the empty path); distinct = distinct operation list.",
+			"Further operations: a second reader with its own cold node cache (CloneMPT) iterating the whole trie, IterateFrom(root), the typed lookup, and twin keys (one nibble changed, same rest path and value). Non-trivial = the history deletes a present key and (contains two live-at-some-time keys where one is a proper prefix of the other, or operates on the empty path); distinct = distinct operation list.",
 		Assumptions: []string{"persistent kinds run on the in-memory grocksdb stand-in (atomic ordered writes, point reads)", "callers never mutate a path or value buffer after passing it in"},
 	})
 	ev.Main(m)
